@@ -700,14 +700,14 @@ Definition flat_machine (m : pmachine) : list (list (list Z)) :=
     flat_chips (pm_dead_chips m);
     flat_links (pm_dead_links m) ].
 
-(* answers of the Machine to "(x, y) in m", "m[(x, y)]", "(x, y, link) in m" over a grid of coordinates *)
-Definition machine_queries (m : pmachine) : list (list Z) :=
-  flat_map (fun dx => map (fun dy =>
-    let c := (dx - 1, dy - 1) in
+(* answers of the Machine to "(x, y) in m", "m[(x, y)]", "(x, y, link) in m" for given coordinates *)
+Definition machine_queries (m : pmachine) (coords : list (list Z)) : list (list Z) :=
+  map (fun xy =>
+    let c := (nth 0 xy 0, nth 1 xy 0) in
     [fst c; snd c; b2z (pm_has_chip m c)] ++
     match pm_get m c with Ok r => 1 :: flat_res r | _ => [0] end ++
     [fold_right Z.add 0 (map (fun l => if pm_has_link m c l then Z.shiftl 1 l else 0) links_values)])
-    (zrange (pm_height m + 2))) (zrange (pm_width m + 2)).
+    coords.
 
 Definition flat_constraints (l : list (range * option chip)) : list (list Z) :=
   map (fun rc => [fst (fst rc); snd (fst rc)] ++
